@@ -84,6 +84,10 @@ func genC19(r *Rng, tier string, idx int) *Plan {
 		}
 		op := pending[i]
 		op.ID = nid()
+		if r.Chance(0.25) {
+			// the API server fails the controller's read once: the reconcile returns an error and is re-queued
+			op.Args = map[string]string{"name": op.Args["name"], "ns": op.Args["ns"], "fail": "1"}
+		}
 		p.Ops = append(p.Ops, op)
 		if r.Chance(0.2) {
 			dup := op
@@ -123,6 +127,27 @@ func genC19(r *Rng, tier string, idx int) *Plan {
 	for len(pending) > 0 {
 		deliver()
 	}
+	if idx%5 == 3 {
+		// a rotation lands while a login callback / a refresh is in flight: the token request it makes after the
+		// reconcile has completed must already carry the new value
+		p.Mode = "in-flight"
+		p.Policy = r.Intn(2)
+		for k := 0; k < 2; k++ {
+			fi := r.Intn(nf)
+			ref := p.Spec.Filters[fi].SecretRef
+			if ref == "" {
+				continue
+			}
+			val := fmt.Sprintf("k8s-default-%s-inflight-%d-%s", ref, k, r.Str(8))
+			par := []Op{{ID: nid(), Kind: "finish", B: 5, F: fi}, {ID: nid(), Kind: "reconcile", Args: map[string]string{"name": ref, "ns": "default"}}}
+			if r.Bool() {
+				par[0], par[1] = par[1], par[0]
+			}
+			p.Ops = append(p.Ops, Op{ID: nid(), Kind: "begin", B: 5, F: fi, Path: t},
+				Op{ID: nid(), Kind: "secret", S: "set", Args: map[string]string{"name": ref, "ns": "default", "value": val}},
+				Op{ID: nid(), Kind: "par", Par: par})
+		}
+	}
 	// traffic after the last reconcile: every filter logs in and refreshes
 	for f := 0; f < nf; f++ {
 		p.Ops = append(p.Ops, Op{ID: nid(), Kind: "nav", B: 3, F: f, Path: t}, Op{ID: nid(), Kind: "adv", D: 301}, Op{ID: nid(), Kind: "send", B: 3, F: f, Path: t, S: "own"})
@@ -134,7 +159,7 @@ func runC19(p *Plan) *Result {
 	var w *World
 	infra := ""
 	inBubble(func() {
-		w = NewWorld(p.Spec, p.SchedSeed, 0, nil)
+		w = NewWorld(p.Spec, p.SchedSeed, p.Policy, nil)
 		w.StartNet(nil)
 		defer w.Close()
 		w.k8sRef = map[string]string{}
@@ -156,25 +181,44 @@ func runC19(p *Plan) *Result {
 			if f.Spec.SecretRef == "" {
 				continue
 			}
-			f.IdP.AcceptSecret = func(sec string) bool {
+			f.IdP.AcceptSecret = func(sec string) bool { return true } // decided at arrival, below
+			f.IdP.OnArrival = func(tr *TokenReq) {
 				want, ok := w.k8sRef[f.Spec.SecretRef]
 				if !ok {
-					return true // no reconcile of this Secret has completed yet: nothing is promised
+					return // no reconcile of this Secret has completed yet: nothing is promised
 				}
 				w.probe("token-requests-after-reconcile")
-				return sec == want
+				tr.RefSecret, tr.RefKnown = want, true
 			}
 		}
 		a := w.NewAgents()
 		ctx := context.Background()
-		for i := range p.Ops {
-			op := &p.Ops[i]
+		var exec func(a *Agents, op *Op)
+		exec = func(a *Agents, op *Op) {
 			switch op.Kind {
+			case "par":
+				a.parWith(op.Par, exec)
 			case "secret":
 				c19Secret(w, op)
 			case "reconcile":
 				name, ns := op.Args["name"], op.Args["ns"]
-				_, err := w.Rep.secrets.Reconcile(ctx, ctrl.Request{NamespacedName: types.NamespacedName{Namespace: ns, Name: name}})
+				task := w.Sim.Cur()
+				w.Sim.Yield("reconcile")
+				w.Sim.SetCur(task)
+				if op.Args["fail"] != "" {
+					w.k8sFailNext = 1
+				}
+				var err error
+				for attempt := 0; attempt < 4; attempt++ {
+					// the manager re-queues a request whose reconcile returned an error
+					w.k8sInReconcile = true
+					_, err = w.Rep.secrets.Reconcile(ctx, ctrl.Request{NamespacedName: types.NamespacedName{Namespace: ns, Name: name}})
+					w.k8sInReconcile = false
+					if err == nil {
+						break
+					}
+					w.probe("reconciles-requeued-after-an-error")
+				}
 				w.countFault("k8s-reconcile-delivered")
 				w.logf("reconcile %s/%s -> %v", ns, name, err)
 				if err == nil && ns == "default" {
@@ -214,6 +258,9 @@ func runC19(p *Plan) *Result {
 			default:
 				a.Exec(op)
 			}
+		}
+		for i := range p.Ops {
+			exec(a, &p.Ops[i])
 		}
 		w.SimSecs = time.Since(w.start).Seconds()
 	})
